@@ -201,6 +201,39 @@ def _task_long_groups(task):
     return t
 
 
+def _task_wide_groups(task):
+    """Many APIDs with a group open at the same time: a FIRST on each of n APIDs, then (optionally a CONTINUATION on each, then) a LAST on
+    each, in the same or in the opposite order.  Every group is complete and is combined; nothing else is yielded."""
+    t = Tally()
+    defn = header_only_definition()
+    n, rev, mid = task["n"], task["reverse"], task["continuation"]
+    apids = [(a * 7 + 3) % 2048 for a in range(n)] if n < 2048 else list(range(2048))
+    firsts = [framing.mk_packet(bytes([a & 0xFF, 1]), apid=a, seqflags=1, seqcount=(a * 3) % 16384) for a in apids]
+    conts = [framing.mk_packet(bytes([a & 0xFF, 2]), apid=a, seqflags=0, seqcount=(a * 3 + 1) % 16384) for a in apids] if mid else []
+    order = list(reversed(apids)) if rev else apids
+    lasts = [framing.mk_packet(bytes([a & 0xFF, 3]), apid=a, seqflags=2, seqcount=(a * 3 + (2 if mid else 1)) % 16384) for a in order]
+    stream = b"".join(firsts) + b"".join(conts) + b"".join(lasts)
+    byapid = {a: i for i, a in enumerate(apids)}
+    want = [firsts[byapid[a]] + (conts[byapid[a]][6:] if mid else b"") + lasts[i][6:] for i, a in enumerate(order)]
+    try:
+        with case_alarm(600):
+            got, _ = run_impl(defn, stream, 0)
+    except BaseException as e:  # noqa: BLE001
+        got = ("raised", type(e).__name__, str(e)[:80])
+    t.evals += 1
+    t.traces += 1
+    t.transitions += len(firsts) + len(conts) + len(lasts)
+    t.nontrivial += 1
+    ok = not isinstance(got, tuple) and got == want
+    t.outcomes["wide-groups:" + ("ok" if ok else "bad")] += 1
+    if not ok:
+        t.violation({"kind": "reassembly", "observed": "raised" if isinstance(got, tuple) else "mismatch", "wide_groups": True},
+                    {"wide_groups": n, "reverse": rev, "continuation": mid}, expected=len(want),
+                    observed=list(got) if isinstance(got, tuple) else len(got),
+                    note="groups open on many APIDs at the same time: each one is combined when its LAST arrives")
+    return t
+
+
 def run(ctx):
     tasks = []
     max_len = 4 if ctx.quick else 6
@@ -217,6 +250,8 @@ def run(ctx):
     tasks.sort(key=lambda x: -x["length"])
     tally = fan_out(_task, tasks, jobs=ctx.jobs, seed=ctx.seed)
     tally.merge(fan_out(_task_long_groups, [{"sizes": [sz], "base": b} for sz in (1023, 1025, 4097, 16383, 16384, 16385, 16386, 32769) for b in (0, 16000)],
+                        jobs=ctx.jobs, seed=ctx.seed))
+    tally.merge(fan_out(_task_wide_groups, [{"n": n, "reverse": r, "continuation": c} for n in (3, 129, 257, 300, 1025, 2048) for r in (False, True) for c in (False, True)],
                         jobs=ctx.jobs, seed=ctx.seed))
     # distinct model states: recompute cheaply over all histories of length <= 4 (the model is tiny)
     states = set()
